@@ -215,5 +215,6 @@ let job_frag (job : Sx.t) : string =
   (* the premises of the end-to-end theorem (Compile/EndToEnd.v): certified, and the gate bound for both dedup settings *)
   let e2e = EndToEnd.certified lfuel p && EndToEnd.within_gate_bound lfuel true p && EndToEnd.within_gate_bound lfuel false p in
   let exh = ExhSem.exh_fns p in
-  Printf.sprintf "(imp %d) (kfree %s) (safe %d) (cov %d) (total %d) (wtcov %d) (e2e %d) (exh %d)%s" (if imp then 1 else 0) k (if safe then 1 else 0)
-    (if cov then 1 else 0) (if total then 1 else 0) (if wtcov then 1 else 0) (if e2e then 1 else 0) (if exh then 1 else 0) canon
+  let joincov = JoinProgram.join_covered (nat_of_int 400) p && SemFuel.sem_fuel_enough lfuel p in
+  Printf.sprintf "(imp %d) (kfree %s) (safe %d) (cov %d) (total %d) (wtcov %d) (e2e %d) (exh %d) (joincov %d)%s" (if imp then 1 else 0) k (if safe then 1 else 0)
+    (if cov then 1 else 0) (if total then 1 else 0) (if wtcov then 1 else 0) (if e2e then 1 else 0) (if exh then 1 else 0) (if joincov then 1 else 0) canon
